@@ -40,7 +40,15 @@ JudgeExplicit(e) ==
           THEN Rej("C05.delivered-is-a-genuine-whole-frame-prefix", e) ELSE TRUE
        /\ IF ~rangeIssue /\ e.end = "eos" /\ errs = {} /\ e.data # spec
           THEN Rej("C05.altered-valid-stream-decodes-to-its-own-pcm", e) ELSE TRUE
-Judge(e) == IF e.kind \in {"flip", "cut"} THEN JudgeExhaustive(e) ELSE JudgeExplicit(e)
+\* verify_reader delivers no samples: finishing with any verdict is "no error reported", allowed only when nothing must be rejected
+JudgeVerifyRun(e) ==
+    /\ IF e.end = "panic" THEN Rej("C05.no-panic", e) ELSE TRUE
+    /\ IF e.end = "eos"
+       THEN LET st == ParseStreamT(e.bytes, Lenient)
+                errs == MustRejectErrorsOf(e.bytes, st)
+            IN IF errs # {} THEN PrintT(<<"REJECT", base.id, l, "C05.invalid-stream-decoded-silently", e.kind, e.at, errs>>) ELSE TRUE
+       ELSE TRUE
+Judge(e) == IF e.reader = "verify" THEN JudgeVerifyRun(e) ELSE IF e.kind \in {"flip", "cut"} THEN JudgeExhaustive(e) ELSE JudgeExplicit(e)
 JudgeVerify(e) ==
     LET want == CASE e.md5mode = "zero" -> "NoMD5"
                   [] e.md5mode = "good" /\ ~e.pcm_altered -> "MD5Match"
